@@ -52,7 +52,7 @@ HasAbs(layout) == \E i \in 1..Len(layout): layout[i].absorbing # <<>>
 OnlySingleNoOut(layout) == {layout[i].from[1]: i \in {j \in 1..Len(layout): Len(layout[j].from) = 1}}
                             \ UNION {SeqSet(layout[i].to): i \in 1..Len(layout)}
 
-InitMon == [abs |-> {}, reabs |-> {}, refire |-> <<>>, norep |-> FALSE]
+InitMon == [abs |-> {}, reabs |-> {}, refire |-> <<>>, norep |-> FALSE, rel |-> {}, again |-> {}]
 
 (* ---- derived observations of one transition ---- *)
 PhysPost(physPre, e) == IF e.t = "P" THEN physPre \cup {e.k} ELSE physPre \ {e.k}
@@ -63,6 +63,10 @@ FiredSeq(pre, e, post) ==
   IF e.t = "P" /\ ~Ignored(pre, e)
   THEN SelectSeq(post.active, LAMBDA m: LastOf(m.from) = e.k /\ ~InSeq(pre.active, m))
   ELSE <<>>
+
+\* the last-listed layout mapping with the same trigger and output as m (m itself when the layout has none)
+InLayout(layout, m) == LET idx == {i \in 1..Len(layout): layout[i].from = m.from /\ layout[i].to = m.to} IN
+                       IF idx = {} THEN m ELSE layout[CHOOSE i \in idx: \A j \in idx: j <= i]
 
 Tag(c, t) == IF c THEN {t} ELSE {}
 
@@ -75,7 +79,8 @@ Check(props, layout, keys, pre, physPre, outPre, mon, e, post, ev, rep) ==
       outPost == fo.out
       fs == FiredSeq(pre, e, post)
       hasFired == fs # <<>>
-      fired == fs[1]
+      \* fs[1] is the mapper's own copy of the mapping; what C07/C09 are about is the mode the LAYOUT declares for it
+      fired == InLayout(layout, fs[1])
       firedNorep == hasFired /\ fired.repeat.kind # "Normal"
       hasAbs == HasAbs(layout)
       foreign == keys \ LayoutKeys(layout)
@@ -184,8 +189,14 @@ Check(props, layout, keys, pre, physPre, outPre, mon, e, post, ev, rep) ==
                          : p \in live}
                   \cup Tag(mon.refire # <<>> /\ mon.refire[1].t = e.k /\ ~ignored /\ physPost = mon.refire[1].ph
                            /\ ~(hasFired /\ fired = mon.refire[1].m), IF mon.reabs # {} THEN "KNOWN-D3-C08c" ELSE "C08c")
+      \* last sentence: M was absorbed, has been released and pressed again (mon.again), nothing is absorbed at the
+      \* moment: a press that completes a mapping requiring M fires it, by the ordinary rule (last-listed candidate)
+      again1 == mon.again \cup (IF e.t = "P" /\ ~ignored /\ e.k \in mon.rel THEN {e.k} ELSE {})
+      countsAgain == hasAbs /\ e.t = "P" /\ ~ignored /\ acted /\ {p \in abs1: p[1] \in physPost} = {}
+                     /\ hasCand /\ SeqSet(cand.from) \cap again1 # {}
+      c08d == Tag(countsAgain /\ ~(hasFired /\ fired = cand), "C08d")
       a08 == IF ~hasAbs \/ e.t # "P" THEN {}
-             ELSE Tag(live # {}, "C08-press-while-absorbed")
+             ELSE Tag(countsAgain, "C08-counts-again") \cup Tag(live # {}, "C08-press-while-absorbed")
                   \cup Tag(mon.refire # <<>> /\ mon.refire[1].t = e.k /\ ~ignored /\ physPost = mon.refire[1].ph, "C08-refire")
                   \cup Tag(hasFired /\ fired.absorbing # <<>>, "C08-absorbing-fired")
 
@@ -204,7 +215,7 @@ Check(props, layout, keys, pre, physPre, outPre, mon, e, post, ev, rep) ==
             \cup (IF "C04" \in props THEN c04 ELSE {})
             \cup (IF "C05" \in props THEN c05f \cup c05e \cup c05r \cup c05i ELSE {})
             \cup (IF "C07" \in props THEN c07 ELSE {})
-            \cup (IF "C08" \in props THEN c08 ELSE {})
+            \cup (IF "C08" \in props THEN c08 \cup c08d ELSE {})
             \cup (IF "C09" \in props THEN c09 ELSE {}),
       a |-> (IF "C19" \in props THEN a19 ELSE {})
             \cup (IF "C01" \in props THEN a01 ELSE {})
@@ -247,7 +258,8 @@ MonNext(props, layout, pre, physPre, mon, e, post) ==
       ignored == Ignored(pre, e)
       fs == FiredSeq(pre, e, post)
       hasFired == fs # <<>>
-      fired == fs[1]
+      \* fs[1] is the mapper's own copy of the mapping; what C07/C09 are about is the mode the LAYOUT declares for it
+      fired == InLayout(layout, fs[1])
       firedNorep == hasFired /\ fired.repeat.kind # "Normal"
       norep2 == IF "C07" \in props THEN (IF e.t = "P" /\ ~ignored THEN firedNorep ELSE mon.norep) ELSE FALSE
       abs1 == IF e.t = "P" /\ ignored THEN mon.abs ELSE {p \in mon.abs: p[1] # e.k}
@@ -261,7 +273,13 @@ MonNext(props, layout, pre, physPre, mon, e, post) ==
                  ELSE IF absorbs THEN <<[t |-> e.k, m |-> fired, ph |-> physPost]>>
                  ELSE IF mon.refire # <<>> /\ mon.refire[1].t # e.k THEN <<>> ELSE mon.refire
       abs3 == {p \in abs2: p[1] \in physPost}
+      \* rel: absorbed keys that have been released since; again: ... and pressed again, not absorbed since
+      nowAbs == IF e.t = "P" /\ absorbs THEN SeqSet(fired.absorbing) ELSE {}
+      rel2 == IF e.t = "R" /\ e.k \in physPre /\ (\E p \in mon.abs: p[1] = e.k) THEN mon.rel \cup {e.k}
+              ELSE IF e.t = "P" /\ ~ignored THEN mon.rel \ {e.k} ELSE mon.rel
+      again2 == IF e.t = "R" THEN mon.again \ {e.k}
+                ELSE ((mon.again \cup (IF ~ignored /\ e.k \in mon.rel THEN {e.k} ELSE {})) \ nowAbs) \cap physPost
   IN IF "C08" \in props /\ HasAbs(layout)
-     THEN [abs |-> abs3, reabs |-> reabs2 \cap {p[1]: p \in abs3}, refire |-> refire2, norep |-> norep2]
-     ELSE [abs |-> {}, reabs |-> {}, refire |-> <<>>, norep |-> norep2]
+     THEN [abs |-> abs3, reabs |-> reabs2 \cap {p[1]: p \in abs3}, refire |-> refire2, norep |-> norep2, rel |-> rel2 \ nowAbs, again |-> again2]
+     ELSE [abs |-> {}, reabs |-> {}, refire |-> <<>>, norep |-> norep2, rel |-> {}, again |-> {}]
 =============================================================================
